@@ -280,16 +280,167 @@ static void do_partial(const J& g, int64_t idx, FILE* out) {
     unlink(fn.c_str());
 }
 
+// C18: every prefix of a file through every reader, twice.  Lines are flushed per cut so that a
+// crash loses nothing; the supervisor resumes after the cut that died.
+static void do_trunc(const J& g, int64_t idx, FILE*) {
+    FILE* out = g_real_out;
+    std::string fn = tmpfile_name("tr");
+    bool oas = g.has("fmt") && g["fmt"].s() == "oas";
+    if (g.has("bytes")) {
+        bytes_to_file(g["bytes"], fn);
+    } else {
+        Built B;
+        build_library(B, g["al"]);
+        tm t0 = tm_of(g["ts"]);
+        if (oas) B.lib.write_oas(fn.c_str(), 0, (uint8_t)g["level"].i(), (uint16_t)g["flags"].i());
+        else B.lib.write_gds(fn.c_str(), 0, &t0);
+    }
+    std::vector<uint8_t> bytes = read_file_bytes(fn.c_str());
+    int64_t n = (int64_t)bytes.size();
+    if (g_resume_phase < 0) {
+        // facts about the complete file
+        W w;
+        w.begin_obj().ks("e", "file").kv("f", idx).ks("kind", oas ? "oas" : "gds").kv("n", n);
+        if (!oas) {
+            double unit = 0, prec = 0;
+            ErrorCode e = gds_units(fn.c_str(), unit, prec);
+            w.kv("uerr", (int64_t)e);
+            w_dbl8(w, "unit", unit);
+            w_dbl8(w, "precision", prec);
+            ErrorCode te = ErrorCode::NoError;
+            tm t = gds_timestamp(fn.c_str(), NULL, &te);
+            w.kv("terr", (int64_t)te);
+            w_tm(w, "ts", t);
+        } else {
+            double prec = 0;
+            ErrorCode e = oas_precision(fn.c_str(), prec);
+            w.kv("perr", (int64_t)e);
+            w_dbl8(w, "precision", prec);
+            uint32_t sig = 0;
+            ErrorCode ve = ErrorCode::NoError;
+            bool ok = oas_validate(fn.c_str(), &sig, &ve);
+            w.kb("valid", ok).kv("verr", (int64_t)ve);
+            w.kv("scheme", (g["flags"].i() & 0x40) ? 1 : (g["flags"].i() & 0x80) ? 2 : 0);
+        }
+        w.end_obj();
+        fputs(w.s.c_str(), out);
+        fputc('\n', out);
+        fflush(out);
+    }
+    std::string cutfn = tmpfile_name("cut");
+    int64_t k0 = g_resume_phase >= 0 ? g_resume_phase : 0;
+    int64_t step = g.has("step") ? g["step"].i() : 1;
+    for (int64_t k = k0; k < n; k += (k < 64 || k > n - 64 ? 1 : step)) {
+        g_shared->phase = k;
+        alarm(g_timeout_s);
+        std::vector<uint8_t> pre(bytes.begin(), bytes.begin() + k);
+        write_file_bytes(cutfn.c_str(), pre);
+        W w;
+        w.begin_obj().ks("e", "cut").kv("f", idx).kv("k", k).key("calls").begin_arr();
+        for (int rep = 0; rep < 2; rep++) {
+            if (!oas) {
+                {
+                    g_shared->phase2 = 1;
+                    int fd0 = open_fd_count();
+                    ErrorCode e = ErrorCode::NoError;
+                    Library lib = read_gds(cutfn.c_str(), 0, 0, NULL, &e);
+                    int fd = open_fd_count() - fd0;
+                    w.begin_obj().ks("rd", "read_gds").kv("err", (int64_t)e).kv("fd", fd);
+                    w.kv("ncells", (int64_t)lib.cell_array.count).kb("named", lib.name != NULL).end_obj();
+                    lib.free_all();
+                }
+                {
+                    g_shared->phase2 = 2;
+                    int fd0 = open_fd_count();
+                    ErrorCode e = ErrorCode::NoError;
+                    Map<RawCell*> raws = read_rawcells(cutfn.c_str(), &e);
+                    int fd = open_fd_count() - fd0;
+                    w.begin_obj().ks("rd", "read_rawcells").kv("err", (int64_t)e).kv("fd", fd);
+                    w.kv("n", (int64_t)raws.count).end_obj();
+                    for (MapItem<RawCell*>* it = raws.next(NULL); it; it = raws.next(it)) {
+                        it->value->clear();
+                        free_allocation(it->value);
+                    }
+                    raws.clear();
+                }
+                {
+                    g_shared->phase2 = 3;
+                    int fd0 = open_fd_count();
+                    LibraryInfo info = {};
+                    ErrorCode e = gds_info(cutfn.c_str(), info);
+                    int fd = open_fd_count() - fd0;
+                    w.begin_obj().ks("rd", "gds_info").kv("err", (int64_t)e).kv("fd", fd).end_obj();
+                    info.clear();
+                }
+                {
+                    g_shared->phase2 = 4;
+                    int fd0 = open_fd_count();
+                    double unit = 0, prec = 0;
+                    ErrorCode e = gds_units(cutfn.c_str(), unit, prec);
+                    int fd = open_fd_count() - fd0;
+                    w.begin_obj().ks("rd", "gds_units").kv("err", (int64_t)e).kv("fd", fd);
+                    w_dbl8(w, "unit", unit);
+                    w_dbl8(w, "precision", prec);
+                    w.end_obj();
+                }
+                {
+                    g_shared->phase2 = 5;
+                    int fd0 = open_fd_count();
+                    ErrorCode e = ErrorCode::NoError;
+                    tm t = gds_timestamp(cutfn.c_str(), NULL, &e);
+                    int fd = open_fd_count() - fd0;
+                    w.begin_obj().ks("rd", "gds_timestamp").kv("err", (int64_t)e).kv("fd", fd);
+                    w_tm(w, "ts", t);
+                    w.end_obj();
+                }
+            } else {
+                {
+                    g_shared->phase2 = 6;
+                    int fd0 = open_fd_count();
+                    double prec = 0;
+                    ErrorCode e = oas_precision(cutfn.c_str(), prec);
+                    int fd = open_fd_count() - fd0;
+                    w.begin_obj().ks("rd", "oas_precision").kv("err", (int64_t)e).kv("fd", fd);
+                    w_dbl8(w, "precision", prec);
+                    w.end_obj();
+                }
+                {
+                    g_shared->phase2 = 7;
+                    int fd0 = open_fd_count();
+                    uint32_t sig = 0;
+                    ErrorCode e = ErrorCode::NoError;
+                    bool ok = oas_validate(cutfn.c_str(), &sig, &e);
+                    int fd = open_fd_count() - fd0;
+                    w.begin_obj().ks("rd", "oas_validate").kv("err", (int64_t)e).kv("fd", fd);
+                    w.kb("valid", ok).end_obj();
+                }
+            }
+        }
+        w.end_arr().end_obj();
+        alarm(0);
+        fputs(w.s.c_str(), out);
+        fputc('\n', out);
+        fflush(out);
+    }
+    unlink(cutfn.c_str());
+    unlink(fn.c_str());
+}
+
 int main(int argc, char** argv) {
     if (argc < 5) return 2;
     gdstk::set_error_logger(NULL);
     std::string mode = argv[1];
     g_tmp = argv[4];
     std::vector<std::string> lines = read_lines(argv[2]);
+    if (mode == "trunc") {
+        g_resumable = true;
+        g_timeout_s = 10;
+    }
     return supervise(lines, argv[3], [&](int64_t k, const std::string& line, FILE* out) {
         J g = jparse(line);
         if (mode == "read") do_read(g, line, k, out);
         else if (mode == "write") do_write(g, k, out);
         else if (mode == "partial") do_partial(g, k, out);
+        else if (mode == "trunc") do_trunc(g, k, out);
     });
 }
